@@ -154,8 +154,12 @@ class UTPM(Ring, RawAlgorithmsMixIn):
         else:
             if not isinstance(sl, tuple):
                 sl = (sl,)
-            self.data.__setitem__((slice(1,None),slice(None)) + sl, 0)
-            return self.data.__setitem__((0,slice(None)) + sl, rhs)
+            if isinstance(rhs, numpy.ndarray) and numpy.may_share_memory(rhs, self.data):
+                # a constant that is a view of the coefficients of self, e.g. x[...] = x.data[1,0]
+                rhs = rhs.copy()
+            # the zeroth coefficient first: a constant that does not fit raises before anything is cleared
+            self.data.__setitem__((0,slice(None)) + sl, rhs)
+            return self.data.__setitem__((slice(1,None),slice(None)) + sl, 0)
 
 
     @property
